@@ -67,7 +67,11 @@ def kleene_or(a, b):
 
 
 class StructView(object):
-    def __init__(self, interp, st, params, store, byte_order_default=None, params_ok=True):
+    def __init__(self, interp, st, params, store, byte_order_default=None, params_ok=True, origin=None):
+        # origin: absolute byte offset of this view's storage in the top-level
+        # buffer (byte-oriented structs), or (container byte offset, container
+        # bytes, byte order, bit base) for bits views
+        self.origin = origin if origin is not None else (0 if st.kind != "bits" else None)
         self.I = interp
         self.st = st
         self.params = params or {}
@@ -240,7 +244,14 @@ class StructView(object):
                 else:
                     sub = self.store[start : start + size]
                 full = len(sub) == size
-        return make_view(self, f, f.typ, sub, null, size, full)
+        origin = None
+        if not null:
+            if self.st.kind == "bits":
+                if self.origin is not None:
+                    origin = (self.origin[0], self.origin[1], self.origin[2], self.origin[3] + start)
+            elif self.origin is not None:
+                origin = self.origin + start
+        return make_view(self, f, f.typ, sub, null, size, full, origin)
 
     # ---- size / completeness / ok ------------------------------------------------------
     def size(self):
@@ -292,12 +303,18 @@ class StructView(object):
         return True
 
 
-def make_view(parent, f, typ, sub, null, declared_size, full):
+def make_view(parent, f, typ, sub, null, declared_size, full, origin=None):
     """View of storage `sub` as type `typ` (arrays peel one dimension)."""
     if typ.dims:
         return ArrayView(parent, f, typ, sub, null, declared_size, full)
     if typ.is_scalar():
-        return ScalarView(parent, f, typ, sub, null)
+        sv = ScalarView(parent, f, typ, sub, null)
+        if origin is not None:
+            if isinstance(origin, tuple):
+                sv.loc = origin + (typ.bits,)
+            else:
+                sv.loc = (origin, (typ.bits + 7) // 8, effective_byte_order(parent, f), 0, typ.bits)
+        return sv
     target = typ.target
     if f.inline is not None and not isinstance(f.inline, M.Enum):
         target = f.inline
@@ -319,8 +336,8 @@ def make_view(parent, f, typ, sub, null, declared_size, full):
         if sub is None or len(sub) * 8 != nbits:
             return StructView(parent.I, target, params, None)
         bo = effective_byte_order(parent, f)
-        return StructView(parent.I, target, params, Bits(codec.container_value(sub, bo), nbits))
-    return StructView(parent.I, target, params, sub)
+        return StructView(parent.I, target, params, Bits(codec.container_value(sub, bo), nbits), origin=(origin, nbits // 8, bo, 0) if origin is not None and not isinstance(origin, tuple) else None)
+    return StructView(parent.I, target, params, sub, origin=origin)
 
 
 def effective_byte_order(parent, f):
@@ -349,8 +366,47 @@ class NullView(object):
 
 
 class ScalarView(object):
+    loc = None  # (container byte offset, container bytes, byte order, bit offset, width)
+
     def __init__(self, parent, f, typ, sub, null):
         self.parent, self.f, self.typ, self.sub, self.null = parent, f, typ, sub, null
+
+    # ---- writes (C03) ----------------------------------------------------------
+    def representable(self, v):
+        t = self.typ
+        if t.kind == "Flag":
+            return v in (0, 1, True, False)
+        if t.kind == "Float":
+            return True
+        lo, hi = codec.value_range(t.kind, t.bits, self.signed_enum())
+        return lo <= v <= hi
+
+    def could_write(self, v):
+        if not self.representable(v):
+            return False
+        if self.f.requires is not None and not self.typ.dims:
+            if self.parent.ev(self.f.requires, this=(bool(v) if self.typ.kind == "Flag" else v)) is not True:
+                return False
+        return True
+
+    def encode(self, v):
+        t = self.typ
+        if t.kind == "Bcd":
+            return codec.bcd_encode(v, t.bits)
+        if t.kind == "Flag":
+            return 1 if v else 0
+        return codec.from_signed(int(v), t.bits)
+
+    def try_write(self, v, buf):
+        """Returns (ok, new buffer)."""
+        if not self.could_write(v) or not self.is_complete() or self.loc is None:
+            return False, buf
+        off, nbytes, bo, bit, width = self.loc
+        cont = codec.container_value(bytes(buf[off : off + nbytes]), bo)
+        cont = codec.deposit(cont, bit, width, self.encode(v))
+        nb = bytearray(buf)
+        nb[off : off + nbytes] = codec.container_bytes(cont, nbytes, bo)
+        return True, bytes(nb)
 
     def raw(self):
         """(complete, raw bits)"""
